@@ -1114,7 +1114,7 @@ fn basic_events_nfa() -> NFA<TerminalEvent> {
         (KeyName::End, "4"),
         (KeyName::PageUp, "5"),
         (KeyName::PageDown, "6"),
-        (KeyName::Insert, "7"),
+        (KeyName::Home, "7"),
         (KeyName::End, "8"),
         (KeyName::F(1), "11"),
         (KeyName::F(2), "12"),
